@@ -69,7 +69,7 @@ CLAIMED = {
               "four dims layouts x 8 bands x powers 0..4 against the exact rational value of the model, plus the "
               "defining expressions and laws checked on the implementation."),
         design="6/C01", technique="Lean 4 proof over ordered fields (list induction, Cauchy-Schwarz) + exact-rational correspondence",
-        note=PROOF_NOTE + " Not shown: float rounding; that xarray's integrate is the trapezoid (assumed, exercised)."),
+        note=PROOF_NOTE + " Not shown: float rounding; that xarray's integrate is the trapezoid (assumed, exercised). Second tie (translator): tools/py2lean_spec.py re-translates WaveSpectrum.m0/m1/m2/hm0/tm01/tm02 and the three bulk properties from the current source on every run (which power, band limits handed on unchanged, closed forms) and OsuProps/C01Gen.lean proves them equal to the model's moment 0/1/2, hm0, tm01, tm02."),
     "C02": dict(
         text=("Lean 4 theorems: wrapped_difference returns the representative modulo the period in [d-P, d); for every grid "
               "covering the circle (all cyclic gaps in (0,180), any start, uniform or not) the bin widths are the cyclic "
@@ -79,7 +79,7 @@ CLAIMED = {
               "direction_step, frequency_step, e, a1..b2 per row against exact rationals (numpy trig tables as inputs), "
               "as_frequency_spectrum metadata and 2D-vs-1D bulk parameters on the implementation."),
         design="6/C02", technique="Lean 4 proof (floor/modular arithmetic over ordered fields, Cauchy-Schwarz) + exact-rational correspondence",
-        note=PROOF_NOTE + " Not shown: accuracy of numpy cos/sin; 2D->1D preservation is definitional in the model (both read e(f) through the same function) and tied by the implementation oracle."),
+        note=PROOF_NOTE + " Not shown: accuracy of numpy cos/sin; 2D->1D preservation is definitional in the model (both read e(f) through the same function) and tied by the implementation oracle. Second tie (translator): tools/py2lean_spec.py re-translates tools/math.py: wrapped_difference (element arithmetic and default discontinuity) and FrequencyDirectionSpectrum.direction_step from the current source on every run; OsuProps/C02Gen.lean proves them equal to the model's wrapDiff and the element map of dirStep."),
     "C03": dict(
         text=("Lean 4 theorems at ℝ: direction = arg(A+iB) in degrees lies in (-180,180]; spread in [0, sqrt2*180/pi] < 81.03 "
               "for moments in the unit disc; on every uniform grid (any N, theta0) rotating the spectrum by any k bins keeps "
@@ -88,7 +88,7 @@ CLAIMED = {
               "rotate with them; mirroring (theta0 = 0) negates sine moments and the direction. Correspondence: point "
               "functions (Float model), band means against exact rationals, rotation/mirror relations on the implementation."),
         design="6/C03", technique="Lean 4 proof at ℝ (Finset re-indexing, Complex.arg / Real.Angle) + correspondence",
-        note=PROOF_NOTE + " Not shown: libm atan2/sqrt accuracy (1e-9 comparison); grids with 2*theta0/dtheta integer but theta0 != 0 for the mirror."),
+        note=PROOF_NOTE + " Not shown: libm atan2/sqrt accuracy (1e-9 comparison); grids with 2*theta0/dtheta integer but theta0 != 0 for the mirror. Second tie (translator): WaveSpectrum._mean_direction, _spread and radian_direction are re-translated from the current source on every run (tools/py2lean_spec.py); OsuProps/C03Gen.lean proves them equal to the model's meanDir and spread."),
     "C04": dict(
         text=("Lean 4 theorems: the scan returns an in-band index with a non-missing energy that is the maximum of the "
               "in-band non-missing energies, and no earlier in-band index attains it (first maximum, ties to the lowest "
@@ -99,7 +99,7 @@ CLAIMED = {
               "frequency/period/direction/spread = values at that index and the dispersion residual of peak_wavenumber "
               "on the implementation."),
         design="6/C04", technique="Lean 4 proof (invariant of the argmax scan) + correspondence",
-        note=PROOF_NOTE + " Peak wavenumber tolerance is C07's sampled convergence clause."),
+        note=PROOF_NOTE + " Peak wavenumber tolerance is C07's sampled convergence clause. Second tie (translator): peak_period, peak_angular_frequency, radian_frequency, wavelength, wave_speed, peak_wave_speed are re-translated from the current source on every run (tools/py2lean_spec.py); OsuProps/C04Gen.lean proves the closed forms 1/f_p, 2 pi f_p, 2 pi/k, omega/k and their mutual consistency."),
     "C13": dict(
         text=("Lean 4 theorems over the ordered-field model of enclosing_points_1d / interpolation_weights_1d / "
               "NdInterpolator._data_interpolator (one coordinate, joint NaN mask over the passive dimensions as in the code): "
@@ -124,7 +124,7 @@ CLAIMED = {
               "weights, dataset interpolation along direction/longitude, interpolate_periodic against exact rationals; "
               "angular data, data frames, Track.interpolate and interpolate_at_points across the antimeridian on the code."),
         design="6/C14", technique="Lean 4 proof (floor/modular arithmetic over ordered fields) + exact-rational correspondence",
-        note=PROOF_NOTE + " Not shown: libm arctan2 of the complex64 average (1e-3 degree comparison with a float64 reference)."),
+        note=PROOF_NOTE + " Not shown: libm arctan2 of the complex64 average (1e-3 degree comparison with a float64 reference). Second tie (translator): wrapped_difference is re-translated from the current source on every run (tools/py2lean_spec.py) and OsuProps/C02Gen.lean proves it equal to the model's wrapDiff."),
     "C07": dict(
         text=("Lean 4 theorems at ℝ about the exact dispersion relation and the solver's structure: tanh has derivative "
               "1/cosh^2, is strictly increasing, 0 < tanh x <= x; omega = sqrt(g k tanh(k d)) is strictly increasing in k, "
@@ -137,7 +137,7 @@ CLAIMED = {
               "positivity, monotonicity, asymptotes, dw/dk and the spectrum-level arrays are checked on the implementation "
               "over a (w, d) log grid."),
         design="6/C07", technique="Lean 4 proof at ℝ (calculus in Mathlib) + Float-model correspondence + residual scan",
-        note=PROOF_NOTE + " Second tie: intrinsic_dispersion_relation and ratio_group_velocity_to_phase_velocity are machine-translated from the current source on every run and proved equal to the model's omega / ratio (OsuProps/C07Gen.lean). Sampled, not proved: that 10 Newton steps reach 1e-3 for every (w, d) of the box (max residual seen is recorded in the evidence)."),
+        note=PROOF_NOTE + " Second tie: intrinsic_dispersion_relation and ratio_group_velocity_to_phase_velocity are machine-translated from the current source on every run and proved equal to the model's omega / ratio (OsuProps/C07Gen.lean). Sampled, not proved: that 10 Newton steps reach 1e-3 for every (w, d) of the box (max residual seen is recorded in the evidence). The spectrum-level closed forms wavelength = 2 pi/k and wave_speed = omega/k are re-translated as well (tools/py2lean_spec.py, OsuProps/C04Gen.lean)."),
     "C15": dict(
         text=("Lean 4 theorems: (a) C-order index arithmetic of flatten for every number and size of leading dimensions: "
               "unravel(ravel idx) = idx for every valid multi-index, ravel(unravel k) = k with a valid multi-index for every "
@@ -239,7 +239,7 @@ CLAIMED = {
               "sign, support, proportionality, bulk = integral, batch = single, independence of the term object's history "
               "(another grid of the same shape evaluated first), imbalance identities and Romero sign as oracles on the code."),
         design="6/C08, 11.3", technique="Lean 4 proof at ℝ (sign / support / linearity of every kernel and field) + Float-model correspondence + implementation oracles",
-        note=PROOF_NOTE + " Romero is checked by oracle only (not modelled). The imbalance identities are definitional in the model and tied by the oracle."),
+        note=PROOF_NOTE + " Romero is checked by oracle only (not modelled). The imbalance identities are definitional in the model and tied by the oracle. Second tie (translator): tools/py2lean_spec.py re-translates, from the current source on every run, the body of the loop nest of _st4_wind_generation_point (value of one bin: relative speed, Janssen critical height with its clamp, growth rate, explicit zero against the wind), the U10 -> friction-velocity conversion, the wrapped mutual-angle cosine, and the ST6 pieces (saturation, clipped relative exceedance, running-sum increment and start, inherent and cumulative bin values); OsuProps/C08Gen.lean proves them equal to the model's st4Rate, frictionVelocity, cosMutual, st6Entry, the element function of st6Exceedance and runSums - the definitions the sign/support/scaling theorems are stated about."),
     "C09": dict(
         text=("Lean 4 theorems at ℝ for every N and every rotation k (mirror for grids starting at 0): the mutual-angle wrap "
               "does not change the cosine and is 2 pi periodic; the ST4 input row of a jointly rotated spectrum and wind is "
@@ -261,7 +261,7 @@ CLAIMED = {
               "rate of change in the active region) and the estimated U10 are unchanged, and the dissipation-weighted wavenumber "
               "vector rotates / reflects. Direction-iterated inversions are exercised on the code only (veering seas, rotated and mirrored)."),
         design="6/C09, 11.3", technique="Lean 4 proof at ℝ (re-indexing over Fin N, periodicity, convolution commutes with rotation, vector rotation) + rotation/mirror oracles on the implementation",
-        note=PROOF_NOTE + " The theorems are exact-arithmetic statements about the list model's whole fields and about the per-row kernels; that whole float solver runs are bit-identical under rotation is not claimed (oracle tolerance 1e-5 / 0.03 m/s; 0.1 m/s and 1.5 degrees with direction iteration, which is not in the Lean model)."),
+        note=PROOF_NOTE + " The theorems are exact-arithmetic statements about the list model's whole fields and about the per-row kernels; that whole float solver runs are bit-identical under rotation is not claimed (oracle tolerance 1e-5 / 0.03 m/s; 0.1 m/s and 1.5 degrees with direction iteration, which is not in the Lean model). Second tie (translator): the ST4 wind-input loop body, mutual-angle cosine and the ST6 bin formulas are re-translated from the current source on every run and proved equal to the model definitions the rotation theorems are about (tools/py2lean_spec.py, OsuProps/C08Gen.lean)."),
     "C10": dict(
         text=("Lean 4 theorems at ℝ over branch-by-branch models of fixed_point_iteration and numba_newton_raphson: a missing "
               "(NaN) wind speed gives a missing roughness element by element; drag = (kappa/ln(elev/z0))^2; the Charnock map is "
